@@ -44,12 +44,26 @@ type sample struct {
 	T0, T1, T2, T3 int64
 	Reset          bool `json:"reset,omitempty"` // Reset() is called before this sample
 	Epoch          bool `json:"epoch,omitempty"` // the clock epoch changes before this sample
+	// Far moves the server's (1, 2) or the client's (3) two instants out of the range that durations can
+	// express relative to the other side: 1 = the zero time.Time (year 1), 2 = year 9000, 3 = client at the zero
+	// time.Time. The differences saturate; only sign and saturation of the raw offset are defined then.
+	Far int `json:"far,omitempty"`
 }
 
 var base = time.Unix(1700000000, 0).UTC()
 
 func (s sample) times() (a, b, c, d time.Time) {
-	return base.Add(time.Duration(s.T0)), base.Add(time.Duration(s.T1)), base.Add(time.Duration(s.T2)), base.Add(time.Duration(s.T3))
+	a, b, c, d = base.Add(time.Duration(s.T0)), base.Add(time.Duration(s.T1)), base.Add(time.Duration(s.T2)), base.Add(time.Duration(s.T3))
+	switch s.Far {
+	case 1:
+		b, c = time.Time{}, time.Time{}.Add(time.Duration(s.T2-s.T1))
+	case 2:
+		b = time.Date(9000, 1, 1, 0, 0, 0, 0, time.UTC)
+		c = b.Add(time.Duration(s.T2 - s.T1))
+	case 3:
+		a, d = time.Time{}, time.Time{}.Add(time.Duration(s.T3-s.T0))
+	}
+	return
 }
 
 // exact integer offset*2 and rtd
@@ -274,6 +288,17 @@ func checkNtimed(t failer, c ntimedCase) (judgedInside, tails int) {
 			t.Fatalf("sample %d (%d since last reset/epoch change): filter with earlier history returned %d, fresh filter fed only the samples since returned %d", i, since, got, got2)
 		}
 		judged, inside := ref.step(s)
+		if s.Far != 0 {
+			// server behind the client (1) or ahead of it (2, 3) by more than a duration can express
+			want := int64(1)
+			if s.Far == 1 {
+				want = -1
+			}
+			if since <= 3 && (got == 0 || (got > 0) != (want > 0) || got/2 > -(1<<61) && got/2 < 1<<61) {
+				t.Fatalf("sample %d is number %d since the last reset; the server's clock is %s the client's by more than 292 years: got %d (expected: sign %+d, saturated)", i, since, map[int64]string{-1: "behind", 1: "ahead of"}[want], got, want)
+			}
+			continue
+		}
 		if since <= 3 {
 			if !rawClose(got, s) {
 				t.Fatalf("sample %d is number %d since the last reset: got %d, raw offset %.1f", i, since, got, float64(s.off2())/2)
@@ -290,7 +315,7 @@ func checkNtimed(t failer, c ntimedCase) (judgedInside, tails int) {
 	return
 }
 
-var recNtimed = ev.New("c17/ntimed", "rapid: histories of 1..80 exchanges (true offset within +-1 day, occasionally +-30 years; delays with spikes x10..x1000 in either direction), Reset() calls and clock-epoch changes at generated positions (one registered fake clock supplies the epoch). Oracles: first three outputs after construction/reset/epoch change equal the raw offset (2 ns + 8 ulp of the operands); a filter with earlier history and a fresh filter fed only the samples since the last reset/epoch change return bit-identical outputs; samples that a harness-side replica of Ntimed's running statistics puts clearly inside the learned bounds (guard band 1e-9 relative) return the raw offset. One evaluation = one history. Non-trivial: >= 1 judged inside-bounds sample at position >= 4, or a reset/epoch change followed by >= 4 samples; distinct by history hash")
+var recNtimed = ev.New("c17/ntimed", "rapid: histories of 1..80 exchanges (true offset within +-1 day, occasionally +-30 years, and in 3 of 40 histories one side's instants at the zero time.Time or in the year 9000 so that the differences saturate - there only sign and saturation of the first three outputs are judged; delays with spikes x10..x1000 in either direction), Reset() calls and clock-epoch changes at generated positions (one registered fake clock supplies the epoch). Oracles: first three outputs after construction/reset/epoch change equal the raw offset (2 ns + 8 ulp of the operands); a filter with earlier history and a fresh filter fed only the samples since the last reset/epoch change return bit-identical outputs; samples that a harness-side replica of Ntimed's running statistics puts clearly inside the learned bounds (guard band 1e-9 relative) return the raw offset. One evaluation = one history. Non-trivial: >= 1 judged inside-bounds sample at position >= 4, or a reset/epoch change followed by >= 4 samples; distinct by history hash")
 
 func genNtimedHistory(t *rapid.T) []sample {
 	n := rapid.OneOf(rapid.IntRange(1, 80), rapid.IntRange(4, 30)).Draw(t, "n")
@@ -319,6 +344,12 @@ func genNtimedHistory(t *rapid.T) []sample {
 			}
 		}
 		h = append(h, s)
+	}
+	// saturating durations: the whole history with one side at the zero time / in the year 9000
+	if far := rapid.IntRange(0, 39).Draw(t, "far"); far >= 1 && far <= 3 {
+		for i := range h {
+			h[i].Far = far
+		}
 	}
 	return h
 }
